@@ -333,11 +333,17 @@ class PercentFormatString:
                 seen_keys = set()
                 non_literals = []
                 for pair in args.kv_pairs:
-                    if isinstance(pair.key, KnownValue) and isinstance(
-                        pair.key.val, str
-                    ):
-                        seen_keys.add(pair.key.val)
-                        for specifier in cs_map[pair.key.val]:
+                    if isinstance(pair.key, KnownValue):
+                        key = pair.key.val
+                        # a bytes pattern looks up bytes keys (decoded like the
+                        # keys of the pattern), a str pattern str keys
+                        if self.is_bytes and isinstance(key, bytes):
+                            key = key.decode("ascii", "replace")
+                        elif self.is_bytes or not isinstance(key, str):
+                            # a literal key of another type never matches
+                            continue
+                        seen_keys.add(key)
+                        for specifier in cs_map.get(key, ()):
                             yield from specifier.accept(pair.value, ctx)
                     else:
                         non_literals.append(pair.key)
